@@ -84,6 +84,14 @@ class FrozenUserErr(UserErr):
         raise AttributeError("cannot assign to field %r" % (name,))
 
 
+class TaskyUserErr(UserErr):
+    """A user exception that has an attribute of its own called _task (say, the job it belongs to)."""
+
+    def __init__(self, tag):
+        UserErr.__init__(self, tag)
+        self._task = "job-17"
+
+
 class UserBaseErr(BaseException):
     def __init__(self, tag):
         BaseException.__init__(self, tag)
@@ -100,6 +108,8 @@ def make_user_exc(cls, tag):
         return FalsyUserErr(tag)
     if cls == "frozen":
         return FrozenUserErr(tag)
+    if cls == "tasky":
+        return TaskyUserErr(tag)
     return UserErr(tag)
 
 
